@@ -1,5 +1,6 @@
 import ParsecVerif.Model.Future
 import ParsecVerif.Proofs.Future
+import ParsecVerif.Base.Interleave
 /-!
 # C29 — futures complete once and deliver one value
 
@@ -392,5 +393,229 @@ theorem C29_base_null_needs_precondition :
 /-- non-vacuity: two setters and a reader; the reader gets the winner's value -/
 example : (brun false 0 [[.set 1], [.set 2], [.get]] [1, 2, 0, 1, 0, 1, 2, 2]).thr.map (·.res) =
     [[(.set 1, 0)], [(.set 2, 1)], [(.get, 2)]] := by decide
+
+
+/-! ## Countable future -/
+
+def isSetRes (p : BOp × Nat) : Bool := match p.1 with | .set _ => true | _ => false
+/-- number of finished `set` operations of a thread -/
+def nSetRes (th : BThread) : Nat := th.res.countP isSetRes
+def finishedSets (s : BState) : Nat := (s.thr.map nSetRes).sum
+
+structure KThOk (sh : BShared) (th : BThread) : Prop where
+  rmb : th.pc = .rmb → sh.compl = true
+  get : ∀ v, (BOp.get, v) ∈ th.res → sh.compl = true ∧ v = 0
+  rdy : (BOp.ready, 1) ∈ th.res → sh.compl = true
+  nocas : ∀ v, th.pc ≠ .cas v
+  nowmb : ∀ v, th.pc ≠ .wmb v
+
+structure KInv (c : Int) (s : BState) : Prop where
+  cnt : s.sh.count = c - (s.sh.ndec : Int)
+  data0 : s.sh.data = 0
+  pos : 1 ≤ c → ((s.sh.compl = true ↔ c ≤ (s.sh.ndec : Int)) ∧
+                 ((c ≤ (s.sh.ndec : Int) ∧ s.sh.cb = 1) ∨ ((s.sh.ndec : Int) < c ∧ s.sh.cb = 0)))
+  nonpos : c ≤ 0 → s.sh.compl = false ∧ s.sh.cb = 0
+  ndec : s.sh.ndec = finishedSets s
+  thr : ∀ th ∈ s.thr, KThOk s.sh th
+
+theorem kthok_ext {sh sh' th} (h : KThOk sh th) (e : sh.compl = true → sh'.compl = true) : KThOk sh' th :=
+  ⟨fun hp => e (h.rmb hp), fun v hv => ⟨e (h.get v hv).1, (h.get v hv).2⟩, fun hr => e (h.rdy hr), h.nocas, h.nowmb⟩
+
+theorem kthok_pc {sh th} (pc' : BPc) (h : KThOk sh th) (hrmb : pc' = .rmb → sh.compl = true)
+    (hc : ∀ v, pc' ≠ .cas v) (hw : ∀ v, pc' ≠ .wmb v) : KThOk sh { th with pc := pc' } :=
+  ⟨hrmb, h.get, h.rdy, hc, hw⟩
+
+theorem kthok_fin {sh th} (op : BOp) (v : Nat) (h : KThOk sh th)
+    (hget : op = .get → sh.compl = true ∧ v = 0) (hrdy : op = .ready → v = 1 → sh.compl = true) : KThOk sh (bfin th op v) := by
+  refine ⟨?_, ?_, ?_, ?_, ?_⟩
+  · intro hx; rcases bfin_pc_ne th op v with e | e <;> rw [e] at hx <;> cases hx
+  · intro x hx
+    simp only [bfin, List.mem_append, List.mem_singleton, Prod.mk.injEq] at hx
+    rcases hx with hx | ⟨h1, h2⟩
+    · exact h.get x hx
+    · subst h2; exact hget h1.symm
+  · intro hx
+    simp only [bfin, List.mem_append, List.mem_singleton, Prod.mk.injEq] at hx
+    rcases hx with hx | ⟨h1, h2⟩
+    · exact h.rdy hx
+    · exact hrdy h1.symm h2.symm
+  · intro x hx; rcases bfin_pc_ne th op v with e | e <;> rw [e] at hx <;> cases hx
+  · intro x hx; rcases bfin_pc_ne th op v with e | e <;> rw [e] at hx <;> cases hx
+
+theorem nSetRes_pc (th : BThread) (pc' : BPc) : nSetRes { th with pc := pc' } = nSetRes th := rfl
+
+theorem nSetRes_fin (th : BThread) (op : BOp) (v : Nat) :
+    nSetRes (bfin th op v) = nSetRes th + (if isSetRes (op, v) then 1 else 0) := by
+  simp [nSetRes, bfin, List.countP_append, List.countP_cons]
+
+theorem finishedSets_set (s : BState) (t : Nat) (sh : BShared) (th th' : BThread) (hi : t < s.thr.length) (hx : s.thr[t] = th) :
+    finishedSets (bset s t sh th') + nSetRes th = finishedSets s + nSetRes th' := by
+  unfold finishedSets bset
+  simp only [List.map_set]
+  have := Interleave.sum_set (s.thr.map nSetRes) t (nSetRes th') (by simpa using hi)
+  simpa [hx] using this
+
+/-- reassembling the countable invariant -/
+theorem kinv_bset {c : Int} {s : BState} {t : Nat} {th : BThread} (sh' : BShared) (th' : BThread)
+    (h : KInv c s) (hi : t < s.thr.length) (hx : s.thr[t] = th)
+    (hmono : s.sh.compl = true → sh'.compl = true)
+    (hcnt : sh'.count = c - (sh'.ndec : Int)) (hdata : sh'.data = 0)
+    (hpos : 1 ≤ c → ((sh'.compl = true ↔ c ≤ (sh'.ndec : Int)) ∧
+                 ((c ≤ (sh'.ndec : Int) ∧ sh'.cb = 1) ∨ ((sh'.ndec : Int) < c ∧ sh'.cb = 0))))
+    (hnonpos : c ≤ 0 → sh'.compl = false ∧ sh'.cb = 0)
+    (hnd : sh'.ndec + nSetRes th = s.sh.ndec + nSetRes th')
+    (hth : KThOk sh' th') : KInv c (bset s t sh' th') := by
+  refine ⟨hcnt, hdata, hpos, hnonpos, ?_, ?_⟩
+  · have := finishedSets_set s t sh' th th' hi hx
+    have h2 := h.ndec
+    show sh'.ndec = finishedSets (bset s t sh' th')
+    omega
+  · intro o ho
+    rcases List.mem_or_eq_of_mem_set ho with ho | ho
+    · exact kthok_ext (h.thr o ho) hmono
+    · subst ho; exact hth
+
+theorem kinv_same {c : Int} {s : BState} {t : Nat} {th : BThread} (th' : BThread)
+    (h : KInv c s) (hi : t < s.thr.length) (hx : s.thr[t] = th) (hn : nSetRes th' = nSetRes th)
+    (hth : KThOk s.sh th') : KInv c (bset s t s.sh th') :=
+  kinv_bset s.sh th' h hi hx id h.cnt h.data0 h.pos h.nonpos (by omega) hth
+
+theorem kinv_step (c : Int) (s : BState) (t : Nat) (h : KInv c s) : KInv c (bstep true s t) := by
+  unfold bstep
+  cases hpc : s.thr[t]? with
+  | none => exact h
+  | some th =>
+    obtain ⟨hi, hx⟩ := getElem_of_getElem? hpc
+    have hm : th ∈ s.thr := hx ▸ List.getElem_mem hi
+    have ht := h.thr th hm
+    simp only []
+    cases hp : th.pc with
+    | idle =>
+      simp only []
+      unfold bidle
+      split
+      · exact kinv_same _ h hi hx rfl (kthok_pc .done ht (by intro hv; cases hv) (by intro v hv; cases hv) (by intro v hv; cases hv))
+      · next v rest htd =>
+        simp only [if_true]
+        exact kinv_same _ h hi hx rfl (kthok_pc (.dec v) ht (by intro hv; cases hv) (by intro v hv; cases hv) (by intro v hv; cases hv))
+      · by_cases hc : s.sh.compl = true
+        · rw [if_pos hc]
+          exact kinv_same _ h hi hx rfl (kthok_pc .rmb ht (fun _ => hc) (by intro v hv; cases hv) (by intro v hv; cases hv))
+        · rw [if_neg hc]
+          exact kinv_same _ h hi hx rfl (kthok_pc .spin ht (by intro hv; cases hv) (by intro v hv; cases hv) (by intro v hv; cases hv))
+      · refine kinv_same _ h hi hx (by rw [nSetRes_fin]; simp [isSetRes]) ?_
+        refine kthok_fin .ready _ ht (by intro hh; cases hh) ?_
+        intro _ hv
+        by_cases hc : s.sh.compl = true
+        · exact hc
+        · simp [hc] at hv
+    | cas v => exact absurd hp (ht.nocas v)
+    | wmb v => exact absurd hp (ht.nowmb v)
+    | dec v =>
+      simp only []
+      have hcnt := h.cnt
+      by_cases h0 : s.sh.count - 1 = 0
+      · rw [if_pos h0]
+        have hc1 : 1 ≤ c := by omega
+        obtain ⟨hcompl, hcb⟩ := h.pos hc1
+        refine kinv_bset _ _ h hi hx (fun _ => rfl) ?_ h.data0 ?_ (by intro hc; omega) ?_ ?_
+        · show s.sh.count - 1 = c - ((s.sh.ndec + 1 : Nat) : Int)
+          omega
+        · intro _
+          refine ⟨⟨fun _ => ?_, fun _ => rfl⟩, Or.inl ⟨?_, ?_⟩⟩
+          · show c ≤ ((s.sh.ndec + 1 : Nat) : Int)
+            omega
+          · show c ≤ ((s.sh.ndec + 1 : Nat) : Int)
+            omega
+          · show s.sh.cb + 1 = 1
+            rcases hcb with ⟨hle, _⟩ | ⟨_, hcb0⟩
+            · omega
+            · omega
+        · show s.sh.ndec + 1 + nSetRes th = s.sh.ndec + nSetRes (bfin th (.set v) 1)
+          rw [nSetRes_fin]; simp [isSetRes]; omega
+        · exact kthok_fin (.set v) 1 (kthok_ext ht (fun _ => rfl)) (by intro hh; cases hh) (by intro hh; cases hh)
+      · rw [if_neg h0]
+        refine kinv_bset _ _ h hi hx id ?_ h.data0 ?_ ?_ ?_ ?_
+        · show s.sh.count - 1 = c - ((s.sh.ndec + 1 : Nat) : Int)
+          omega
+        · intro hc1
+          obtain ⟨hcompl, hcb⟩ := h.pos hc1
+          refine ⟨⟨fun hc => ?_, fun hle => ?_⟩, ?_⟩
+          · show c ≤ ((s.sh.ndec + 1 : Nat) : Int)
+            have := hcompl.1 hc
+            omega
+          · apply hcompl.2
+            have : c ≤ ((s.sh.ndec + 1 : Nat) : Int) := hle
+            omega
+          · rcases hcb with ⟨hle, hcb1⟩ | ⟨hlt, hcb0⟩
+            · refine Or.inl ⟨?_, hcb1⟩
+              show c ≤ ((s.sh.ndec + 1 : Nat) : Int)
+              omega
+            · refine Or.inr ⟨?_, hcb0⟩
+              show ((s.sh.ndec + 1 : Nat) : Int) < c
+              omega
+        · exact h.nonpos
+        · show s.sh.ndec + 1 + nSetRes th = s.sh.ndec + nSetRes (bfin th (.set v) 0)
+          rw [nSetRes_fin]; simp [isSetRes]; omega
+        · exact kthok_fin (.set v) 0 (kthok_ext ht id) (by intro hh; cases hh) (by intro hh; cases hh)
+    | spin =>
+      simp only []
+      by_cases hc : s.sh.compl = true
+      · rw [if_pos hc]
+        exact kinv_same _ h hi hx rfl (kthok_pc .rmb ht (fun _ => hc) (by intro v hv; cases hv) (by intro v hv; cases hv))
+      · rw [if_neg hc]
+        exact kinv_same _ h hi hx rfl (kthok_pc .spin ht (by intro hv; cases hv) (by intro v hv; cases hv) (by intro v hv; cases hv))
+    | rmb =>
+      simp only []
+      refine kinv_same _ h hi hx (by rw [nSetRes_fin]; simp [isSetRes]) ?_
+      exact kthok_fin .get _ ht (fun _ => ⟨ht.rmb hp, h.data0⟩) (by intro hh; cases hh)
+    | done => simpa using h
+
+theorem kinv_init (c : Int) (progs : List (List BOp)) : KInv c (binit c progs) := by
+  refine ⟨by simp [binit], rfl, ?_, ?_, ?_, ?_⟩
+  · intro hc
+    refine ⟨⟨(by intro hh; cases hh), ?_⟩, Or.inr ⟨?_, rfl⟩⟩
+    · intro hle; simp [binit] at hle; omega
+    · simp [binit]; omega
+  · intro _; exact ⟨rfl, rfl⟩
+  · show 0 = finishedSets (binit c progs)
+    simp only [finishedSets, binit, List.map_map]
+    induction progs with
+    | nil => rfl
+    | cons p r ih => simp [List.map_cons, List.sum_cons, nSetRes] at ih ⊢; exact ih
+  · intro th hth
+    simp only [binit, List.mem_map] at hth
+    obtain ⟨p, _, rfl⟩ := hth
+    exact ⟨(by intro hh; cases hh), (by intro v hh; cases hh), (by intro hh; cases hh), (by intro v hh; cases hh), (by intro v hh; cases hh)⟩
+
+/-- **C29 (countable future).**  For a count `c ≥ 1`, after ANY schedule: the future is ready exactly when at least `c` `set`
+    operations have executed (their fetch-dec), the callback ran exactly once if ready and never before, the count word is
+    `c − #sets`, and every finished `get` returned after readiness (with the NULL the countable future tracks). -/
+theorem C29_count (c : Int) (hc : 1 ≤ c) (progs : List (List BOp)) (sched : List Nat) :
+    ((brun true c progs sched).sh.compl = true ↔ c ≤ (finishedSets (brun true c progs sched) : Int)) ∧
+    ((brun true c progs sched).sh.cb = if c ≤ (finishedSets (brun true c progs sched) : Int) then 1 else 0) ∧
+    (brun true c progs sched).sh.count = c - (finishedSets (brun true c progs sched) : Int) ∧
+    ∀ th ∈ (brun true c progs sched).thr,
+      (∀ v, (BOp.get, v) ∈ th.res → (brun true c progs sched).sh.compl = true ∧ v = 0) ∧
+      ((BOp.ready, 1) ∈ th.res → (brun true c progs sched).sh.compl = true) := by
+  have h : KInv c (brun true c progs sched) := foldl_inv _ _ (kinv_step c) sched _ (kinv_init c progs)
+  generalize brun true c progs sched = s at h
+  obtain ⟨hcompl, hcb⟩ := h.pos hc
+  rw [← h.ndec]
+  refine ⟨hcompl, ?_, h.cnt, fun th hth => ⟨(h.thr th hth).get, (h.thr th hth).rdy⟩⟩
+  rcases hcb with ⟨hle, h1⟩ | ⟨hlt, h0⟩
+  · rw [if_pos hle]; exact h1
+  · rw [if_neg (by omega)]; exact h0
+
+/-- A countable future initialised with a count `≤ 0` never becomes ready and never runs its callback. -/
+theorem C29_count_nonpositive (c : Int) (hc : c ≤ 0) (progs : List (List BOp)) (sched : List Nat) :
+    (brun true c progs sched).sh.compl = false ∧ (brun true c progs sched).sh.cb = 0 := by
+  have h : KInv c (brun true c progs sched) := foldl_inv _ _ (kinv_step c) sched _ (kinv_init c progs)
+  exact h.nonpos hc
+
+/-- non-vacuity: count 2, three setters; ready after the second fetch-dec, callback once -/
+example : (brun true 2 [[.set 0], [.set 0, .get], [.set 0]] [0, 1, 0]).sh.compl = false ∧
+    (brun true 2 [[.set 0], [.set 0, .get], [.set 0]] [0, 1, 0, 1, 2, 2, 1, 1]).sh.cb = 1 ∧
+    finishedSets (brun true 2 [[.set 0], [.set 0, .get], [.set 0]] [0, 1, 0, 1, 2, 2, 1, 1]) = 3 := by decide
 
 end ParsecVerif.C29
